@@ -964,6 +964,24 @@ func ExtCall(name string) {
 	Touch(&extObj, true, hashString(name))
 }
 
+// PlainPoints turns the rewriter-inserted points in front of writes to fields,
+// elements and dereferences (plain shared memory) into scheduling points. Set by
+// a scenario's Setup; off by default. With it on, two goroutines that update the
+// same plain memory without synchronisation interleave at those writes (and
+// between the read and the write of x.f++ / x.f += v), which is how a data race
+// on a counter or a scratch buffer shows as a wrong result. Scenarios that use it
+// run without the happens-before memo.
+var PlainPoints bool
+
+var plainObj Obj
+
+func Plain() {
+	if !PlainPoints {
+		return
+	}
+	Touch(&plainObj, true, 0)
+}
+
 // Infra reports a situation the harness machinery cannot handle (not a property
 // violation): the process exits with status 2, which the driver reports as an
 // infrastructure error and never as a VIOLATION.
